@@ -12,8 +12,8 @@ import (
 
 func init() {
 	register(&PropMeta{
-		ID:    "C17",
-		Level: "proof",
+		ID:          "C17",
+		Level:       "proof",
 		Explanation: "Every method present in both the Manager and TableEngine interfaces is proved to be a pure forwarder: one registry lookup by its own table-id parameter, the table-not-found sentinel on a failed lookup, exactly one call of the same-named engine method on the looked-up engine with the remaining parameters in order, results returned unchanged, no other call or registry access (except Delete(own id) after a successful close/release). The registry is accessed only by Load/Store/Delete keyed by the operation's own id; no production package has mutable package-level state and the engine never writes through its shared options. Discharging all obligations proves the statement modulo the trusted base.",
 		Rules: map[string]string{
 			"F1": "exactly one GetTableEngine call, with the method's own tableID parameter",
